@@ -71,10 +71,11 @@ class Family:
 class HistFamily(Family):
     """random single-vector histories + fills to the documented limits"""
 
-    def __init__(self, nlists=24, nhist=14, nfill=6, strict_block=True, steps=(6, 40), fill_only=False, allow_overlap=False):
+    def __init__(self, nlists=24, nhist=14, nfill=6, strict_block=True, steps=(6, 40), fill_only=False, allow_overlap=False, via_reserve=False):
         super().__init__()
         self.nlists, self.nhist, self.nfill, self.strict_block, self.steps, self.fill_only = nlists, nhist, nfill, strict_block, steps, fill_only
         self.allow_overlap = allow_overlap
+        self.via_reserve = via_reserve
 
     def jobs(self, rng, tier):
         mult = 1 if tier == "quick" else 5
@@ -87,7 +88,7 @@ class HistFamily(Family):
                     self.add_stats(st)
                     scripts.append((gen.script_id(lines), lines, None))
             for _ in range(self.nfill * mult):
-                lines, st = gen.gen_fill(L, K_DEFAULT, rng, self.strict_block)
+                lines, st = gen.gen_fill(L, K_DEFAULT, rng, self.strict_block, self.via_reserve)
                 self.add_stats(st)
                 scripts.append((gen.script_id(lines), lines, None))
             jobs.append(Job(L, K_DEFAULT, scripts, statics_for(L, rng), tag="hist"))
@@ -119,6 +120,27 @@ class SpecialFamily(Family):
                     self.add_stats(st)
                     scripts.append((gen.script_id(lines), lines, None))
                 jobs.append(Job(L, K, scripts, tag="special"))
+        return jobs
+
+
+class EmptyFamily(Family):
+    """empty / zero-capacity / default-constructed vectors (C18)"""
+
+    def __init__(self, nlists=20, nscripts=14):
+        super().__init__()
+        self.nlists, self.nscripts = nlists, nscripts
+
+    def jobs(self, rng, tier):
+        mult = 1 if tier == "quick" else 5
+        jobs = []
+        for li, L in enumerate(self.lists(rng, tier, self.nlists)):
+            K = [K_DEFAULT, K_PMR, (1, 1, 1, 0, 1)][li % 3]
+            scripts = []
+            for _ in range(self.nscripts * mult):
+                lines, st = gen.gen_empty(L, K, rng)
+                self.add_stats(st)
+                scripts.append((gen.script_id(lines), lines, None))
+            jobs.append(Job(L, K, scripts, tag="empty"))
         return jobs
 
 
@@ -189,7 +211,7 @@ def shrink(v, prop, run_pair, canon, split_blocks, first_diff, orc, rundir, budg
         _, ib = split_blocks(iout)
         _, mb = split_blocks(mout)
         il, ml = canon(ib.get("s", [])), canon(mb.get("s", []))
-        ov = orc.check(prop, j.L, j.K, lines, il)
+        ov = orc.check(prop, j.L, j.K, lines, ib.get("s", []))
         d = first_diff(il, ml)
         if want_oracle:
             return (ov, d) if ov else None
@@ -221,8 +243,11 @@ def shrink(v, prop, run_pair, canon, split_blocks, first_diff, orc, rundir, budg
 
 for p in ("C08", "C09"):
     FAMILIES[p] = SpecialFamily()
-for p in ("C03", "C04", "C10", "C16", "C18"):
+for p in ("C03", "C04"):
     FAMILIES[p] = HistFamily()
+FAMILIES["C10"] = HistFamily(strict_block=False, nhist=10, nfill=10, via_reserve=True)
+FAMILIES["C16"] = Multi(HistFamily(nlists=16, nhist=8), SpecialFamily(nlists=6, nscripts=8))
+FAMILIES["C18"] = Multi(EmptyFamily(), HistFamily(nlists=8, nhist=6, nfill=2))
 FAMILIES["C01"] = HistFamily(allow_overlap=True)
 FAMILIES["C05"] = Multi(HistFamily(nlists=16, nhist=8), SpecialFamily(nlists=6, nscripts=8))
 FAMILIES["C07"] = Multi(HistFamily(nlists=16, nhist=8), SpecialFamily(nlists=6, nscripts=8))
